@@ -563,6 +563,17 @@ func vDistinctDirs(es []vSpecEntry) bool {
 }
 
 func vEnumerate(k, poolSize int, emit func(vCase)) {
+	vEnumPool := vEnumPool
+	// VERIF_ENUM_POOL_IDX=0,2,4: use only these pool entries (quick tier)
+	if s := os.Getenv("VERIF_ENUM_POOL_IDX"); s != "" && poolSize == 0 {
+		var sel []vSpecEntry
+		for _, x := range strings.Split(s, ",") {
+			if i, err := strconv.Atoi(x); err == nil && i >= 0 && i < len(vEnumPool) {
+				sel = append(sel, vEnumPool[i])
+			}
+		}
+		vEnumPool = sel
+	}
 	n := len(vEnumPool)
 	if poolSize > 0 && poolSize < n {
 		n = poolSize
